@@ -1064,6 +1064,11 @@ func ColumnDefault(c *schema.Column) (cty.Value, error) {
 			if err != nil {
 				return cty.NilVal, err
 			}
+			// A value that is wrapped with quotes itself reads back as a quoted
+			// literal (i.e., without them). Keep the literal as it was written.
+			if sqlx.IsQuoted(s, '\'', '"') {
+				return schemahcl.RawExprValue(&schemahcl.RawExpr{X: x.V}), nil
+			}
 			return cty.StringVal(s), nil
 		case strings.ToLower(x.V) == "true", strings.ToLower(x.V) == "false":
 			return cty.BoolVal(strings.ToLower(x.V) == "true"), nil
